@@ -461,14 +461,14 @@ def check_model(ctx, p, rs, rl, api):
     # (c) hypotheses of the theorems
     hyp = {"unroll": ["rank_ok", "wf", "names_ok_short", "names_ok_long", "long_rank_ok"],
            "num": ["value_pos", "no_other_constraint", "same_stack", "fresh", "names_ok_short", "names_ok_long"],
-           "broadcast": ["wf"], "anon": ["target_unused"]}[kind]
+           "broadcast": ["wf"], "anon": ["target_unused", "ren_ok", "names_ok_short", "names_ok_long"]}[kind]
     missing = [h for h in hyp if not m.get(h)]
     if kind == "unroll" and m.get("long_ellipses") != 0:
         missing.append("long_ellipses")
     if kind == "broadcast" and m.get("level") is None:
         missing.append("level")
     ctx.count(f"stage2:{kind}:hypotheses:" + ("all-hold" if not missing else "missing:" + ",".join(missing)))
-    if missing and not (kind == "unroll" and missing == ["rank_ok"]) and not (kind == "num" and not m.get("counts_known")):
+    if missing and not (kind == "unroll" and missing == ["rank_ok"]) and not (kind in ("num", "anon") and not m.get("counts_known")):
         # rank_ok can fail legitimately when the short form has no solution at the rank level; everything else must hold on generated cases
         bad.append((tie, f"hypotheses {missing} of the theorem do not hold for {where}"))
     # (d) the conclusion on this instance: same verdict, same lengths, same shapes; and as einx reports
